@@ -13,7 +13,7 @@ from ..gen_tables import (hint_and_default_table, primitive_members, classvar_te
                           metadata_keys_read, eval_in, _mod)
 from ..grammar import SPEC_PYTYPE
 from ..interp_base import Raised, Run, Limit, short_exc
-from ..values import ClassV, FuncV, UnionV, LibClass, InstV
+from ..values import ClassV, FuncV, UnionV, LibClass, InstV, EnumMemberV
 from .c13 import inhabits
 
 PID = "C16"
@@ -80,6 +80,15 @@ def check(rep, ctx):
                     ok, msg = False, f"tagged default {row['default']!r} = {dv!r} is not a member of {row['hint']}"
             except (Raised, Limit) as e:
                 ok, msg = False, f"cannot decide membership of {row['default']!r}: {e}"
+        if ok and row["kafka_type"] in ("int8", "int16", "int32", "int64", "uint16", "uint32", "uint64", "float64", "bool", "error_code"):
+            # a type without a wire-level null: an absent tagged field takes the type's zero value
+            dv = row.get("default_value")
+            zero = dv is False if row["kafka_type"] == "bool" else (
+                isinstance(dv, EnumMemberV) and dv.value == 0 if row["kafka_type"] == "error_code" else
+                (isinstance(dv, InstV) and dv.attrs.get("_base_value_") == 0) or (isinstance(dv, (int, float)) and not isinstance(dv, bool) and dv == 0))
+            if not zero:
+                ok, msg = False, (f"tagged default of {row['kafka_type']} is {row['default']!r}; the type has no null on the wire, an absent tag "
+                                  f"means the zero value")
         line = 0
         for n in ast.walk(fdt.node):
             if isinstance(n, ast.match_case) and ast.unparse(n.pattern).endswith("." + row["member"]):
